@@ -412,9 +412,22 @@ def check(run: Run) -> None:
         if run._cur is not None:
             run._cur["sites"] = sum(len(v) for v in WANT.values())
 
+    with run.obligation("C09.j", "K2", "a wake-up pending inside a wrapped sub-graph survives a failure the wrapper captured: try_except pulls the child's next scheduled time up to "
+                        "the parent after the guarded evaluation on the failing path too (an inlined timer is not affected by a sibling's exception either) (shared with C15.c)"):
+        from . import c15
+        R.share(run, "C09.j", c15, ["C15.c"])
+
+    with run.obligation("C09.k", "K6", "a nested sub-graph's result is aliased to a boundary argument only when it IS that argument: every leaf of the returned structure comes "
+                        "from the same boundary input at the leaf's own path (a swap / rotate / broadcast of one argument's elements is a new structure, as it is when "
+                        "the sub-graph is inlined) (shared with C06.f)"):
+        from . import c06
+        R.share(run, "C09.k", c06, ["C06.f"])
+
+
 
 def HDRX(cn, tail):
     return "graph_header(graph_context(context),graph.data())." + tail
+
 
 
 VARIANTS = [
